@@ -13,6 +13,7 @@ What the generator knows about the *parser* is only the grammar (which slots exi
 from the source AST, never from the text.
 """
 import random
+import re
 
 BASE_TYPES = ["string", "void", "byte", "bool", "binary", "i8", "i16", "i32", "i64", "double", "uuid"]
 SCOPES = ["*", "c_glib", "cpp", "delphi", "haxe", "go", "java", "js", "lua", "netstd", "perl", "php",
@@ -30,6 +31,82 @@ I64_MAX = (1 << 63) - 1
 I32_MAX = (1 << 31) - 1
 
 TOKCH = set("abcdefghijklmnopqrstuvwxyzABCDEFGHIJKLMNOPQRSTUVWXYZ0123456789_.")
+
+
+# ---------------------------------------------------------------------- where a word or a number ends
+# Python mirror of Print.v `cont_ok` / `int_stops` / `dbl_stops` (fam/idl/coq): may the text `following` come directly
+# (no blank, no separator) after a token without continuing it?  Exact, so that the generators can draw the layouts in
+# which two tokens touch ([5x] = 5 and x, true.5, A=5B, const i8 c=5struct S{}) and only those.
+_DIG = "0123456789"
+_HEX = _DIG + "abcdefABCDEF"
+_I64 = 2 ** 63 - 1
+_WORDCH = set("abcdefghijklmnopqrstuvwxyzABCDEFGHIJKLMNOPQRSTUVWXYZ0123456789_")
+
+
+def _run(chars, s):
+    i = 0
+    while i < len(s) and s[i] in chars:
+        i += 1
+    return s[:i]
+
+
+def int_starts(k):
+    ds = _run(_DIG, k.lstrip("-"))
+    return ds != "" and int(ds) <= _I64
+
+
+def exp_starts(k):
+    return k[:1] in ("e", "E") and int_starts(k[1:])
+
+
+def hex_continues(k):
+    if k[:1] != "x":
+        return False
+    hs = _run(_HEX, k[1:])
+    return hs != "" and int(hs, 16) <= _I64
+
+
+def _split_int(t):
+    """text of an integer constant -> (number of minus signs, hexadecimal?, digits)"""
+    body = t.lstrip("-")
+    minus = len(t) - len(body)
+    if body[:2] == "0x" and len(body) > 2:
+        return minus, True, body[2:]
+    return minus, False, body
+
+
+def int_stops(t, k):
+    minus, hexa, digits = _split_int(t)
+    if hexa:
+        return not (k[:1] and k[0] in _HEX)
+    return not (k[:1] and k[0] in _DIG) and not (digits == "0" and hex_continues(k))
+
+
+def int_not_double(t, k):
+    minus, hexa, digits = _split_int(t)
+    return hexa or minus >= 2 or not (k[:1] == "." or exp_starts(k))
+
+
+def dbl_stops(t, k):
+    m = re.match(r"^-?\+?(?:\d+\.\d*|\.\d+|\d+)(?:[eE](-*(?:0x[0-9a-fA-F]+|\d+)))?$", t)
+    assert m, t
+    if m.group(1) is None:
+        return not (k[:1] and k[0] in _DIG) and not exp_starts(k)
+    return int_stops(m.group(1), k)
+
+
+def touch_ok(kind, text, following):
+    """kind: 'word' (identifier, keyword, true / false, path), 'int' (where a double is tried first: constant values),
+    'eint' (an integer constant on its own: enum values), 'dbl', or anything else (quotes, brackets, punctuation)"""
+    if kind == "word":
+        return not (following[:1] and following[0] in _WORDCH)
+    if kind == "int":
+        return int_stops(text, following) and int_not_double(text, following)
+    if kind == "eint":
+        return int_stops(text, following)
+    if kind == "dbl":
+        return dbl_stops(text, following)
+    return True
 
 
 def lit_canon(b):
@@ -451,8 +528,21 @@ class Gen:
             toks += [("kw", "oneway")] + self.B()
         for _ in range(20):
             tt, tc = self.type_(2) if r.random() < 0.7 else ([("kw", "void")], "(type void [])")
-            if not oneway and tt[0][0] == "id" and tt[0][1] in ("oneway", "throws"):
-                continue
+            if not oneway and r.random() < 0.06:
+                # a result type whose first word is oneway / throws (legal: oneway.x, oneway(a='b'), throws ...)
+                pt, pc = self.path()
+                pt[0] = ("id", r.choice(["oneway", "throws"]))
+                pc = pt[0][1] + pc[pc.index("."):] if "." in pc else pt[0][1]
+                tt, tc = pt, "(type (path %s) [])" % pc
+                if r.random() < 0.4:
+                    at0, ac0 = self.annotations()
+                    tt, tc = pt + self.b() + at0, "(type (path %s) %s)" % (pc, ac0)
+            if not oneway and tt[0] == ("id", "oneway"):
+                # the word oneway followed by a blank is the keyword: the slot after the word must stay empty, and
+                # something other than the function name must follow it ('.' of the path or '(' of the annotations)
+                if len(tt) < 2 or tt[1][0] != "oblank":
+                    continue
+                tt = [tt[0]] + tt[2:]
             break
         name = self.ident()
         toks += tt + self.B() + [("id", name)] + self.b() + [("punct", "(")]
@@ -534,21 +624,31 @@ class Gen:
                     merged[-1] = ("blank", None)
                 continue
             merged.append((k, t))
+        # 2. fill the slots from the END of the text, so that the text that follows a slot is known when the slot is
+        #    filled: an empty optional blank is repaired (one space) exactly when the token before it would be
+        #    continued by what follows (touch_ok: the longest-match rule of words and numbers).  Values that may touch
+        #    do touch in the minimal layout: [5x], true.5, A=5B, const i8 c=5struct S{}.
+        TOUCH = {"kw": "word", "id": "word", "num": "int", "dbl": "dbl"}
         out = []
+        following = ""
         n = len(merged)
-        for i, (k, t) in enumerate(merged):
+        for i in range(n - 1, -1, -1):
+            k, t = merged[i]
             if k in ("blank", "oblank"):
                 txt = self.blank_text(k == "blank")
-                if txt == "":
-                    # fusion repair: both neighbours are token characters
-                    prev = out[-1][1] if out else ""
-                    nxt = merged[i + 1][1] if i + 1 < n else ""
-                    if prev and nxt and prev[-1] in TOKCH and nxt[0] in TOKCH:
+                if txt == "" and i > 0:
+                    pk, pt = merged[i - 1]
+                    if not touch_ok(TOUCH.get(pk), pt, following):
                         txt = " "
+                    elif pk in TOUCH and following[:1] and (following[0] in _WORDCH or following[0] == "."):
+                        TOUCH_STATS["doc token touches the next token"] += 1
                 if txt:
                     out.append(("blank", txt))
+                following = txt + following
             else:
                 out.append((k, t))
+                following = t + following
+        out.reverse()
         # a text that ends with a blank slot may end with a line comment that runs to the END OF INPUT (no newline):
         # the grammar demands the newline only when something follows the comment
         if merged and merged[-1][0] in ("blank", "oblank") and self.lr.random() < self.p_tail:
@@ -768,7 +868,10 @@ def cst_ty(rng, depth, simple):
         if rng.random() < 0.5:
             b = rng.choice(BASE_TYPES)
             return "base " + b, b, b, True
-        ps, pt, pc = cst_path(rng, forbid_first=BASE_TYPES + ["list", "set", "map"])
+        # list / set / map are legal type names (nothing that can follow a type begins with '<')
+        ps, pt, pc = cst_path(rng, forbid_first=BASE_TYPES)
+        if pc.split(".")[0] in ("list", "set", "map"):
+            TOUCH_STATS["cst type name list/set/map"] += 1
         return "path " + ps, pt, "(path %s)" % pc, True
     kind = rng.choice(["list", "set", "map"])
     cs, ct, cc = ("c0", "", "-") if simple else cst_cpp(rng)
@@ -814,6 +917,27 @@ def gen_cst_type(rng, depth, simple=None):
 # printed HERE by plain concatenation, with the canonical tree of the erased document.
 
 TYPE_WORDS = BASE_TYPES + ["list", "set", "map"]
+
+
+# how often the generators drew the layouts that became well-formed with C15_accepted_iff_printed (reported by c15.py)
+from collections import Counter
+TOUCH_STATS = Counter()
+
+
+def const_touch_kind(v):
+    """the kind of the last token of a constant value (a tuple of CstGen.const), for touch_ok"""
+    c = v[2]
+    if c.startswith("(bool") or c.startswith("(path"):
+        return "word"
+    if c.startswith("(double"):
+        return "dbl"
+    if c.startswith("(int"):
+        return "int"
+    return None
+
+
+ITEM_KINDS = ["include", "cpp_include", "namespace", "typedef", "typedef", "const", "const", "enum", "struct", "struct",
+              "union", "exception", "service"]
 
 
 class CstGen:
@@ -955,30 +1079,33 @@ class CstGen:
                 els.append((key, b1s, b1t, b2s, b2t, v))
             else:
                 els.append((None, None, None, None, None, self.const(depth - 1)))
+        # the elements are laid out from the LAST one, so that the text that follows a value is known when its blank /
+        # separator are chosen: without separator and blank the value must not be continued by what follows
+        # (touch_ok, the mirror of Print.cont_ok) -- [5x], [true.5], [a.5], [1..5] are drawn, [5e5] is not
         ser, text, cs = [], "", []
-        for idx, (key, b1s, b1t, b2s, b2t, v) in enumerate(els):
-            nxt = els[idx + 1] if idx + 1 < len(els) else None
-            first_of_next = (nxt[0] if is_map else nxt[5]) if nxt else None
-            next_word = first_of_next[4] if first_of_next else False
-            next_dot = first_of_next[5] if first_of_next else False
-            # glue: choose the separator / blank so that the value does not fuse with the next one
-            must_sep = v[6] and next_dot
-            if must_sep or r.random() < 0.5:
+        following = "}" if is_map else "]"
+        for idx in range(len(els) - 1, -1, -1):
+            key, b1s, b1t, b2s, b2t, v = els[idx]
+            if r.random() < 0.45:
                 kch = r.choice(",;")
                 sbs, sbt = self.blank()
                 ss, st = "s%s %s" % (kch, sbs), kch + sbt
                 bs, bt = self.blank()
             else:
                 ss, st = "s0", ""
-                bs, bt = self.blank(mandatory=(v[3] and (next_word or next_dot)))
+                bs, bt = self.blank(mandatory=not touch_ok(const_touch_kind(v), v[1], following), p_empty=0.7)
+                if bt == "" and v[3] and following[0] not in "]}":
+                    TOUCH_STATS["cst value touches the next value"] += 1
             if is_map:
-                ser.append("%s %s %s %s %s %s" % (key[0], b1s, b2s, v[0], bs, ss))
-                text += key[1] + b1t + ":" + b2t + v[1] + bt + st
-                cs.append("(%s %s)" % (key[2], v[2]))
+                ser.insert(0, "%s %s %s %s %s %s" % (key[0], b1s, b2s, v[0], bs, ss))
+                el_text = key[1] + b1t + ":" + b2t + v[1] + bt + st
+                cs.insert(0, "(%s %s)" % (key[2], v[2]))
             else:
-                ser.append("%s %s %s" % (v[0], bs, ss))
-                text += v[1] + bt + st
-                cs.append(v[2])
+                ser.insert(0, "%s %s %s" % (v[0], bs, ss))
+                el_text = v[1] + bt + st
+                cs.insert(0, v[2])
+            following = el_text + following
+        text = following[:-1]
         if is_map:
             return ("CMAP %s m%d%s" % (b0s, n, "".join(" " + x for x in ser)), "{" + b0t + text + "}",
                     "(map" + "".join(" " + c for c in cs) + ")", False, False, False, False)
@@ -1074,8 +1201,9 @@ class CstGen:
         b0s, b0t = self.blank()
         n = r.choice([0, 1, 2, 3, 5])
         sers, text, cs = [], "", []
+        names = [self.ident() for _ in range(n)]
         for i in range(n):
-            vn = self.ident()
+            vn = names[i]
             has_val = r.random() < 0.6
             as_, at, ac, has_anns = self.oanns(0.2)
             ss, st, has_sep = self.sep()
@@ -1083,8 +1211,11 @@ class CstGen:
             if has_val:
                 vb1s, vb1t = self.blank()
                 is_, it, iv = self.cint()
-                need = not has_anns and not has_sep and not lastv
-                vb2s, vb2t = self.blank(mandatory=need)
+                # A=5B is A=5 and B: the blank is needed only if the next name would continue the number
+                need = not has_anns and not has_sep and not lastv and not touch_ok("eint", it, names[i + 1])
+                vb2s, vb2t = self.blank(mandatory=need, p_empty=0.7)
+                if vb2t == "" and not has_anns and not has_sep and not lastv:
+                    TOUCH_STATS["cst enum number touches the next name"] += 1
                 e1s, e1t = self.blank()
                 val_s, val_t, vc = "v1 %s %s %s" % (vb1s, is_, vb2s), "=" + vb1t + it + vb2t, str(iv)
             else:
@@ -1114,7 +1245,21 @@ class CstGen:
             ts, tt, tc, tew = self.type_()
         else:
             ow_s, ow_t = "o0", ""
-            ts, tt, tc, tew = self.type_(forbid_head=["oneway", "throws"])
+            # a result type may begin with the word throws; with the word oneway only if no blank follows the word
+            ts, tt, tc, tew = self.type_(forbid_head=["oneway"])
+            if r.random() < 0.08:
+                head = r.choice(["oneway", "throws"])
+                seg = self.ident()
+                b2x, b2xt = self.blank(p_empty=0.6)
+                if r.random() < 0.5 or head == "throws":
+                    b1x, b1xt = ("b0", "") if head == "oneway" else self.blank(p_empty=0.6)
+                    ts = "T path i%s p1 %s %s i%s N" % (_hx(head.encode()), b1x, b2x, _hx(seg.encode()))
+                    tt, tc, tew = head + b1xt + "." + b2xt + seg, "(type (path %s.%s) [])" % (head, seg), True
+                else:
+                    as0, at0, ac0 = cst_anns(r)
+                    ts = "T path i%s p0 A b0 %s" % (_hx(head.encode()), as0)
+                    tt, tc, tew = head + at0, "(type (path %s) %s)" % (head, ac0), False
+                TOUCH_STATS["cst result type begins with " + head] += 1
         b1s, b1t = self.blank(mandatory=True)
         name = self.ident()
         b2s, b2t = self.blank()
@@ -1166,13 +1311,12 @@ class CstGen:
         text = "service" + b1t + name + ex_t + b2t + "{" + text + b3t + "}" + tt
         return ser, text, "(service %s %s (%s) %s)" % (name, ec, " ".join(cs), tac), is_open, False
 
-    def item(self, last):
+    def item(self, last, kind=None, next_kw=None):
         """(ser, text, canon, open, ends_word, rs_package or None); eof is decided by the caller through `last`:
         an item is at the end of input when it is the last one and ends in a blank slot (its trailing file-level blank
         is then empty) -- the generator passes eof=last to the slots and fixes the file-level blank afterwards"""
         r = self.r
-        kind = r.choice(["include", "cpp_include", "namespace", "typedef", "typedef", "const", "const", "enum", "struct", "struct",
-                         "union", "exception", "service"])
+        kind = kind or r.choice(ITEM_KINDS)
         eof = last
         pkg = None
         if kind in ("include", "cpp_include"):
@@ -1216,7 +1360,12 @@ class CstGen:
             b3s, b3t = self.blank()
             b4s, b4t = self.blank()
             v = self.const(self.depth)
-            tls, tlt, tac, is_open, bare = self.tail(eof, v[3], last)
+            # const i8 c = 5struct S{} is two items: after a value the blank is needed only if the keyword of the next
+            # item would continue it
+            touches = next_kw is not None and touch_ok(const_touch_kind(v), v[1], next_kw + " ")
+            tls, tlt, tac, is_open, bare = self.tail(eof, v[3] and not touches, last)
+            if touches and v[3] and tlt == "":
+                TOUCH_STATS["cst constant touches the next item"] += 1
             ser = "const %s %s %s i%s %s %s %s %s" % (b1s, ts, b2s, _hx(name.encode()), b3s, b4s, v[0], tls)
             text = "const" + b1t + tt + b2t + name + b3t + "=" + b4t + v[1] + tlt
             return ser, text, "(const %s %s %s %s)" % (name, tc, v[2], tac), is_open, (v[3] and bare), None
@@ -1240,9 +1389,10 @@ class CstGen:
         b0s, b0t = self.blank()
         sers, text, cs = [], "", []
         pkg = "-"
+        kinds = [r.choice(ITEM_KINDS) for _ in range(n)]
         for i in range(n):
             last = i == n - 1
-            s, t, c, is_open, ew, ns = self.item(last)
+            s, t, c, is_open, ew, ns = self.item(last, kinds[i], None if last else kinds[i + 1])
             if is_open:
                 bs, bt = "b0", ""
             else:
